@@ -257,15 +257,15 @@ def call (env : Env) (runForm : Form → Matrix → Res → List Glyph × Bool) 
     match safeFloats [tx, ty] with
     | some [tx, ty] =>
       let (a, b, c, d, e, f) := st.ts.matrix
-      ({ st with ts := { st.ts with matrix := (a, b, c, d, td_e_new tx a ty c e, td_f_new tx b ty d f),
+      ({ st with ts := { st.ts with matrix := (a, b, c, d, td_e_new tx ty a b c d e f, td_f_new tx ty a b c d e f),
                                     linematrix := (0, 0) } }, [])
     | _ => (st, [])
   | .TD, [tx, ty] =>
     match safeFloats [tx, ty] with
     | some [tx, ty] =>
       let (a, b, c, d, e, f) := st.ts.matrix
-      ({ st with ts := { st.ts with matrix := (a, b, c, d, tD_e_new tx a ty c e, tD_f_new tx b ty d f),
-                                    leading := tD_leading ty, linematrix := (0, 0) } }, [])
+      ({ st with ts := { st.ts with matrix := (a, b, c, d, tD_e_new tx ty a b c d e f, tD_f_new tx ty a b c d e f),
+                                    leading := tD_leading tx ty, linematrix := (0, 0) } }, [])
     | _ => (st, [])
   | .Tm, [a, b, c, d, e, f] =>
     match safeFloats [a, b, c, d, e, f] with
